@@ -23,20 +23,29 @@ def cross_thread(rep):
     class B(db.Entity):
         a = Optional(A)
         y = Required(int)
+        cs = Set('C')
+    class C(db.Entity):
+        z = Required(int)
+        bs = Set(B)
     db.bind('sqlite', ':sharedmemory:')
     db.generate_mapping(create_tables=True)
     with db_session:
-        A(id=1, x=1); B(id=1, y=1)
+        A(id=1, x=1); B(id=1, y=1); C(id=1, z=1)
     box = {}
     ready, done = threading.Event(), threading.Event()
     def other():
         with db_session:
-            box['a'] = A[1]; box['b'] = B[1]
+            box['a'] = A[1]; box['b'] = B[1]; box['c'] = C[1]
             ready.set(); done.wait(20)
     th = threading.Thread(target=other); th.start(); ready.wait(20)
     cases = {
         'assign foreign-session object to an attribute': lambda: setattr(B[1], 'a', box['a']),
         'add foreign-session object to a collection': lambda: A[1].bs.add(box['b']),
+        'add a single foreign-session object to a many-to-many collection': lambda: C[1].bs.add(box['b']),
+        'add a list of foreign-session objects to a many-to-many collection': lambda: C[1].bs.add([box['b']]),
+        'remove a foreign-session object from a many-to-many collection': lambda: B[1].cs.remove(box['c']),
+        'assign a foreign-session object to a many-to-many collection': lambda: setattr(B[1], 'cs', box['c']),
+        'create an object referring to a foreign-session object': lambda: B(id=7, y=1, a=box['a']),
         'load() an object of another thread\'s session': lambda: box['a'].load(),
         'modify an object of another thread\'s session': lambda: setattr(box['a'], 'x', 5),
         'delete an object of another thread\'s session': lambda: box['a'].delete(),
@@ -72,8 +81,8 @@ def run(tier, seed, only=None):
     if only: specs = [s for s in specs if only in s['fn']]
     ch.run_harnesses(rep, specs, classify)
     if not only: cross_thread(rep)
-    rep.extra = {'fault_points': 12, 'faults_injected': 3 ** 6 * 12 * 2}
-    rep.bounds = {'adversary': '3 actions before each of accesses 1-6 (adversary_q*) and 7-12 (adversary_late_q*) of the shared caches (of 4-20 per query), cold and warm start',
+    rep.extra = {'fault_points': 8, 'faults_injected': 5 ** 4 * 12 * 2}
+    rep.bounds = {'adversary': '4 actions (nothing / delete the key / install the other thread\'s entry / a real second thread runs the same location to completion before / right after the access) around each of accesses 1-4 (adversary_q*) and 5-8 (adversary_late_q*) of the shared caches (of 4-20 per query), cold and warm start',
                   'queries': '6 program locations (pinned slice bounds, plain parameters, string query, index, filter/order_by chain, raw_sql fragment), two parameter vectors'}
     rep.assumptions = ['single dict operations are atomic under the GIL, so adversary-before-each-access covers every schedule with respect to one dictionary',
                        'the adversary only installs entries another thread running the same program location would legitimately have written',
